@@ -404,6 +404,23 @@ def run(ctx, scale, focus):
             fcfg = {"targets": [{"path": "f%d" % i} for i in range(3)], "sequences": SEQS}
             run_case(ctx, random.Random(cs), focus, forced={"case_seed": cs, "cfg": fcfg, "mode": "all", "named": [], "fou": False, "fail_at": [], "only_cmds": ["build", "test"], "flip": fl, "all_exec": True})
     if focus == "C05":
+        # --deps from a target whose name merely extends its dependency's name, or that reaches it through a sub-path
+        pcfg = {"targets": [{"path": "core"}, {"path": "core-tests", "uses": ["core/src"]}, {"path": "web", "uses": ["core-tests"]}, {"path": "app"}, {"path": "app2", "uses": ["app"]},
+                            {"path": "api"}, {"path": "api-gen", "uses": ["api/schema.json"]}], "sequences": SEQS}
+        for nm in (["core-tests", "web", "app2", "api-gen"] if not ctx.quick() else ["core-tests", "app2"]):
+            r0 = random.Random(ctx.rng.getrandbits(32)); cs = r0.getrandbits(32)
+            run_case(ctx, random.Random(cs), focus, forced={"case_seed": cs, "cfg": pcfg, "mode": "deps", "named": [nm], "all_exec": True})
+            ctx.count("deps_from_prefix_named_target")
+    if focus == "C06":
+        # a failing command of a target whose path is long and multi-byte throughout: it fails the run like any other
+        for rep in range(2 if ctx.quick() else 8):
+            r0 = random.Random(ctx.rng.getrandbits(32)); cs = r0.getrandbits(32)
+            def wname(i): return "wide/" + "".join(r0.choice(["\u00e9", "\u65e5", "\u672c", "\U0001F600", "\u00fc"]) for _ in range(r0.randint(12, 22))) + "x" * (i % 4) + "%d" % i
+            nm = [wname(i) for i in range(4)]
+            wcfg = {"targets": [{"path": nm[0]}, {"path": nm[1], "uses": [nm[0]]}, {"path": nm[2], "uses": [nm[1]]}, {"path": nm[3]}], "sequences": SEQS}
+            run_case(ctx, random.Random(cs), focus, forced={"case_seed": cs, "cfg": wcfg, "mode": "all", "named": [], "fou": False, "all_exec": True, "only_cmds": ["build", "test"], "fail_at": [["build", nm[rep % 2]]]})
+            ctx.count("failure_on_long_multibyte_target")
+    if focus == "C05":
         # run with an explicit change interval: it must execute what analyze reports for the same --begin / --end
         for rep in range(3 if ctx.quick() else 12):
             r0 = random.Random(ctx.rng.getrandbits(32)); cs = r0.getrandbits(32)
